@@ -469,6 +469,48 @@ def run(check, repo: Repo) -> None:
             ok = False
     check.decide(ok, "C07-R4", "radon_torch: align_corners=True is paired with the 2·x/(N−1) − 1 normalisation", "", mod.line(g),
                  fail_detail="align_corners / normalisation mismatch: integer pixel positions are not sampled exactly")
+    # disc mask: which pixels survive.  Reference: `outside_reconstruction_circle = dist > radius**2` (strictly outside is outside) — the kept
+    # region is the CLOSED disc dist² ≤ r².  The torch port may multiply by the kept mask, masked_fill the outside, or torch.where; all three
+    # are reduced to the relation of the kept region.
+    ref_out = [n.value for n in ast.walk(ref_fns["radon"]) if isinstance(n, ast.Assign) and dotted(n.targets[0]) == "outside_reconstruction_circle"]
+    if len(ref_out) != 1 or not (isinstance(ref_out[0], ast.Compare) and isinstance(ref_out[0].ops[0], ast.Gt)):
+        raise AnalysisError("reference radon: `outside_reconstruction_circle = dist > radius**2` not found — update the conformance table")
+    NEG = {ast.Gt: "<=", ast.GtE: "<", ast.Lt: ">=", ast.LtE: ">"}
+    POS = {ast.Gt: ">", ast.GtE: ">=", ast.Lt: "<", ast.LtE: "<="}
+
+    def _rel(e, kept: bool):
+        """relation `dist² REL r²` describing the KEPT pixels, from a comparison that describes the kept (kept=True) or zeroed region"""
+        if isinstance(e, ast.Name):
+            ds = [d for d in definitions(rad, e.id) if isinstance(d, ast.AST)]
+            return _rel(ds[0], kept) if len(ds) == 1 else None
+        if isinstance(e, ast.UnaryOp) and isinstance(e.op, (ast.Invert, ast.Not)):
+            return _rel(e.operand, not kept)
+        if isinstance(e, ast.Compare) and len(e.ops) == 1 and type(e.ops[0]) in POS and "radius" in unparse(e.comparators[0]) and "radius" not in unparse(e.left):
+            return (POS if kept else NEG)[type(e.ops[0])]
+        return None
+    kept_rel = None
+    site = None
+    for n in walk_no_nested_defs(rad):
+        if isinstance(n, ast.AugAssign) and isinstance(n.op, ast.Mult) and dotted(n.target) == "images":
+            kept_rel, site = _rel(n.value, True), n
+        elif isinstance(n, ast.Assign) and dotted(n.targets[0]) == "images" and isinstance(n.value, ast.BinOp) and isinstance(n.value.op, ast.Mult):
+            for a, b in ((n.value.left, n.value.right), (n.value.right, n.value.left)):
+                if dotted(a) == "images" and _rel(b, True):
+                    kept_rel, site = _rel(b, True), n
+        elif isinstance(n, (ast.Assign, ast.Expr)) and isinstance(n.value, ast.Call) and isinstance(n.value.func, ast.Attribute) and n.value.func.attr in ("masked_fill", "masked_fill_") \
+                and n.value.args and len(n.value.args) >= 2 and is_const(n.value.args[1], 0):
+            kept_rel, site = _rel(n.value.args[0], False), n
+        elif isinstance(n, ast.Assign) and dotted(n.targets[0]) == "images" and isinstance(n.value, ast.Call) and (call_name(n.value) or "").endswith("where") and len(n.value.args) == 3:
+            c_, a_, b_ = n.value.args
+            if dotted(a_) == "images":
+                kept_rel, site = _rel(c_, True), n
+            elif dotted(b_) == "images":
+                kept_rel, site = _rel(c_, False), n
+    if kept_rel is None:
+        raise AnalysisError("radon_torch: the disc mask applied to `images` was not recognised (multiply by mask / masked_fill / where)")
+    check.decide(kept_rel == "<=", "C07-R3", "radon_torch: the disc mask keeps dist² ≤ radius² (reference: only dist² > radius² is outside)", f"kept: dist² {kept_rel} r²", mod.line(site),
+                 definite=True, fail_detail=f"kept region is dist² {kept_rel} radius²: pixels exactly on the rim (axis extremes, Pythagorean points) are treated differently from the reference — the "
+                                            f"sinogram of an image that is non-zero there deviates")
     # rotation matrix: the linear part must equal the reference's R[:2, :2]
     rref = ref_fns["radon"]
     Rdef = [n.value for n in ast.walk(rref) if isinstance(n, ast.Assign) and dotted(n.targets[0]) == "R"]
@@ -551,3 +593,4 @@ MANIFEST = {
             "source; if it is absent the check is an analysis error.",
     "technique": "sibling (port) conformance against the reference source via canonical forms + rational normal forms (AST)",
 }
+MANIFEST["text"] += " radon_torch's disc mask is reduced to the relation of the KEPT region (multiply by mask / masked_fill / where) and compared with the reference's `dist > radius²` outside test (closed disc)."
